@@ -6,8 +6,9 @@ import ast
 from sa.astx import NotConst, call_attr, call_name, const_eval, lin_expect, lincmp, src, walk_local
 from sa.domains import TCHAR, VCHAR, fmt_set, loop_reject_set, regex_class
 from sa.selftest import Mutant, Silent
+from sa.source import AnalysisError
 from sa.props._lib_f import (assign_sites, call_sites, catches_everything, class_functions, cmp_polarity, enclosing_try_handlers,
-                             from_here, guarded_eq, is_self_attr, named_calls, none_guard, param_names, truth_guard)
+                             from_here, guarded_eq, InterpError, interpret, is_self_attr, named_calls, none_guard, param_names, truth_guard)
 
 PROPERTY = "C24"
 P = "web/_newclient.py"
@@ -19,7 +20,7 @@ EXPLANATION = (
     "both _ensureValid* return only on acceptance and raise ValueError otherwise; (b) at the single transport write of Request._writeHeaders every "
     "element is a constant ending in CRLF, a validator result (method, target), a sanitised Headers value or the numeric Content-Length line, the "
     "Host-count test and the validators run before any write, and each _writeTo* writes the head before touching the producer and pairs the framing "
-    "header with its encoder (chunked <-> ChunkedEncoder, Content-Length <-> LengthEnforcingConsumer) chosen by the UNKNOWN_LENGTH test; (c) "
+    "header with its encoder (chunked <-> ChunkedEncoder, Content-Length <-> LengthEnforcingConsumer) chosen by the UNKNOWN_LENGTH test; writeTo and its four helpers are interpreted together over (caller headers) x (no body / known / unknown length) x method and the head written must announce exactly the framing of the encoder the body goes through; (c) "
     "ChunkedEncoder emits `hex(len) CRLF data CRLF`, never encodes an empty write (F24, fixed), writes the zero chunk exactly once in "
     "unregisterProducer and never on the error path, and refuses writes after the end; (d) LengthEnforcingConsumer forwards exactly when "
     "len <= remaining, decrements with the forward, reports excess and shortfall. Not decided: parse-back by an independent parser."
@@ -44,6 +45,8 @@ def check(ctx):
         _write_headers(ctx)
     with ctx.section("write-to"):
         _write_to(ctx)
+    with ctx.section("framing-agreement"):
+        _framing_agreement(ctx)
     with ctx.section("chunked"):
         _chunked(ctx)
     with ctx.section("length"):
@@ -219,7 +222,21 @@ def _write_headers(ctx):
                 ctx.check(kinds == ["method", "uri", b"HTTP/1.1\r\n"], "sink/request-line", ctx.construct(q, c),
                           f"the request line is not `validated-method SP validated-target SP HTTP/1.1 CRLF`: {kinds}")
             elif k.startswith("param:"):
-                ctx.check(none_guard(g, g.ids_of(c)[0], k[6:], False), "sink/provenance", ctx.construct(q, c), "the framing header parameter may be None when appended")
+                nid = g.ids_of(c)[0]
+                ctx.check(none_guard(g, nid, k[6:], False), "sink/provenance", ctx.construct(q, c), "the framing header parameter may be None when appended")
+                extra = []
+                for t, lab in g.edge_guards(nid):
+                    e = g.node(t).ast
+                    if cmp_polarity(e, k[6:], "None") is not None or src(e) == k[6:]:
+                        continue
+                    if isinstance(e, ast.Compare) and src(e.left).startswith("len(") and src(e.comparators[0]) == "1":
+                        continue          # the exactly-one-Host test
+                    if any(isinstance(x, ast.Name) and x.id == k[6:] for x in ast.walk(e)):
+                        continue          # a test on the framing line itself (e.g. "is it a duplicate of the caller's"): judged by framing/head-matches-encoder
+                    extra.append(src(e))
+                ctx.check(not extra, "framing/line-unconditional", ctx.construct(q, c),
+                          f"whether the framing line chosen by the caller is written also depends on {extra}: the caller has already committed to the matching body encoder, "
+                          "so the head may announce a different framing than the body uses")
             else:
                 ctx.check(k == "const", "sink/provenance", ctx.construct(q, c), f"an element of unknown provenance / not one CRLF-terminated line is written: {k}")
         elif c.func.attr == "extend":
@@ -356,6 +373,141 @@ def _write_to(ctx):
         ctx.check(w is None, "length/shortfall-checked", ctx.construct(q, c), "success is reported before the length check", witness=g.describe(w))
 
 
+# ---- head-announced framing == body encoder, by finite evaluation of writeTo and its helpers ------------------------
+class _Headers:
+    _sa_model = True
+
+    def __init__(self, raw):
+        self.raw = dict(raw)
+
+    def getRawHeaders(self, name, default=None):
+        for k, v in self.raw.items():
+            if k.lower() == name.lower():
+                return list(v)
+        return default
+
+    def hasHeader(self, name):
+        return self.getRawHeaders(name) is not None
+
+    def getAllRawHeaders(self):
+        return list(self.raw.items())
+
+
+class _Transport:
+    _sa_model = True
+
+    def __init__(self):
+        self.out = []
+
+    def writeSequence(self, seq):
+        self.out.extend(seq)
+
+    def write(self, data):
+        self.out.append(data)
+
+    def registerProducer(self, *a):
+        return None
+
+    def unregisterProducer(self):
+        return None
+
+
+class _Obj:
+    _sa_model = True
+
+    def __init__(self, kind, *args):
+        self.kind = kind
+        self.args = args
+
+    def __getattr__(self, name):
+        if name.startswith("__"):
+            raise AttributeError(name)
+        return lambda *a, **k: _Obj("result-of-" + name)
+
+
+class _Producer:
+    _sa_model = True
+
+    def __init__(self, length):
+        self.length = length
+        self.consumers = []
+
+    def startProducing(self, consumer):
+        self.consumers.append(consumer)
+        return _Obj("deferred")
+
+    def stopProducing(self):
+        return None
+
+
+UNKNOWN = object()
+
+
+def _framing_agreement(ctx):
+    fns = {n: ctx.func(P, "Request." + n) for n in ("writeTo", "_writeHeaders", "_writeToBodyProducerChunked", "_writeToBodyProducerContentLength", "_writeToEmptyBodyContentLength")}
+    q = "twisted.web._newclient.Request.writeTo"
+    bad = []
+    n = 0
+    caller_sets = {"plain": {}, "caller Content-Length": {b"Content-Length": [b"5"]}, "caller Transfer-Encoding": {b"Transfer-Encoding": [b"chunked"]}}
+    bodies = {"no body": None, "known length 5": 5, "known length 0": 0, "unknown length": UNKNOWN}
+    try:
+        for cname, extra in caller_sets.items():
+            for bname, length in bodies.items():
+                for method in (b"GET", b"POST"):
+                    n += 1
+                    hdrs = _Headers({b"Host": [b"example.com"], **extra})
+                    tr = _Transport()
+                    prod = None if length is None else _Producer(length)
+                    selfm = _Obj("self")
+                    mapping = {"self.headers": hdrs, "self.method": method, "self.uri": b"/", "self.persistent": False, "self.bodyProducer": prod, "UNKNOWN_LENGTH": UNKNOWN}
+                    funcs = {"_ensureValidMethod": lambda m: m, "_ensureValidURI": lambda u: u, "networkString": lambda s_: s_.encode("ascii"),
+                             "ChunkedEncoder": lambda t: _Obj("ChunkedEncoder", t), "LengthEnforcingConsumer": lambda *a: _Obj("LengthEnforcingConsumer", *a),
+                             "Deferred": lambda *a: _Obj("deferred"), "succeed": lambda *a: _Obj("deferred"), "fail": lambda *a: _Obj("deferred")}
+
+                    def call(name, funcs=funcs, mapping=mapping, selfm=selfm):
+                        def run(*args):
+                            f = fns[name]
+                            ps = param_names(f)[1:]
+                            kind, val = interpret(f, dict(zip(ps, args), self=selfm), mapping, funcs=funcs, nested_call=lambda *a: _Obj("deferred"))
+                            if kind == "raise":
+                                raise RuntimeError(val)
+                            return val
+                        return run
+                    for name in fns:
+                        funcs["self." + name] = call(name)
+                    funcs["self._writeHeaders"] = call("_writeHeaders")
+                    try:
+                        call("writeTo")(tr)
+                    except RuntimeError as e:
+                        bad.append((cname, bname, method, f"raises {e}"))
+                        continue
+                    head = b"".join(x for x in tr.out if isinstance(x, bytes))
+                    lines = [l for l in head.split(b"\r\n") if b":" in l]
+                    fields = [(l.split(b":", 1)[0].strip().lower(), l.split(b":", 1)[1].strip()) for l in lines]
+                    used = [getattr(c, "kind", type(c).__name__.strip("_")) for c in (prod.consumers if prod else [])]
+                    why = None
+                    if not head.endswith(b"\r\n\r\n") or not head.startswith(method + b" / HTTP/1.1\r\n"):
+                        why = f"the head is not one complete request head: {head[:60]!r}"
+                    elif length is None and used:
+                        why = "a body is produced for a request without a body producer"
+                    elif length is UNKNOWN and (used != ["ChunkedEncoder"] or (b"transfer-encoding", b"chunked") not in fields):
+                        why = f"the body is written through {used or 'nothing'} while the head announces {fields}"
+                    elif isinstance(length, int) and (used != ["LengthEnforcingConsumer"] or (b"content-length", str(length).encode()) not in fields):
+                        why = f"the body is written through {used or 'nothing'} (exactly {length} bytes) while the head announces {fields}"
+                    elif length is None and method == b"POST" and (b"content-length", b"0") not in fields and not extra:
+                        why = "a body-less POST does not announce Content-Length: 0"
+                    if why:
+                        bad.append((cname, bname, method, why))
+    except InterpError as e:
+        raise AnalysisError(f"C24: writeTo / _writeHeaders use a construct the evaluator cannot interpret: {e}")
+    msg = ""
+    if bad:
+        c_, b_, m_, why = bad[0]
+        msg = f"{m_.decode()} request, headers: {c_}, body: {b_}: {why}; an independent parser would frame the body differently from what is written ({len(bad)} of {n} cases)"
+    ctx.check(not bad, "framing/head-matches-encoder", q + " | <headers x body grid>", msg, detail=f"{n} (caller headers, body kind, method) cases")
+    ctx.extra["finite_cases_framing"] = n
+
+
 # ---- (c) ChunkedEncoder -------------------------------------------------------------------------------
 def _chunk_emitters(mod):
     """methods of ChunkedEncoder that emit `size CRLF data CRLF` through transport.writeSequence"""
@@ -484,6 +636,7 @@ def _length(ctx):
 
 # ---------------------------------------------------------------------------------------------------------
 MUTANTS = [
+    Mutant("framing-line-dropped-when-caller-set-a-length", P, "        if TEorCL is not None:\n            requestLines.append(TEorCL)", "        if TEorCL is not None and self.headers.getRawHeaders(b\"Content-Length\") is None:\n            requestLines.append(TEorCL)"),
     Mutant("revert-F24-empty-write-encoded", P,
            "        if data:\n            # A zero-length chunk is the end-of-body marker, so an empty write\n            # must not be encoded as a chunk.\n            self._writeChunk(data)\n",
            "        self._writeChunk(data)\n"),
@@ -516,6 +669,10 @@ MUTANTS = [
            "        encoder = ChunkedEncoder(transport)\n        encoder.registerProducer(self.bodyProducer, True)\n        self._writeHeaders(transport, b\"Transfer-Encoding: chunked\\r\\n\")\n"),
 ]
 SILENT = [
+    Silent("duplicate-content-length-line-skipped", P, "        if TEorCL is not None:\n            requestLines.append(TEorCL)",
+           "        if TEorCL is not None:\n            mine = TEorCL.split(b\":\", 1)\n            theirs = self.headers.getRawHeaders(b\"Content-Length\") or []\n            if not (mine[0].lower() == b\"content-length\" and [mine[1].strip()] == theirs):\n                requestLines.append(TEorCL)"),
+    Silent("duplicate-content-length-single-test", P, "        if TEorCL is not None:\n            requestLines.append(TEorCL)",
+           "        if TEorCL is not None:\n            dupes = [b\"Content-Length: \" + v + b\"\\r\\n\" for v in self.headers.getRawHeaders(b\"Content-Length\", [])]\n            if TEorCL not in dupes:\n                requestLines.append(TEorCL)"),
     Silent("chunk-size-uppercase-hex", P, "            (networkString(\"%x\\r\\n\" % len(data)), data, b\"\\r\\n\")", "            (networkString(\"%X\\r\\n\" % len(data)), data, b\"\\r\\n\")"),
     Silent("empty-write-early-return", P,
            "        if data:\n            # A zero-length chunk is the end-of-body marker, so an empty write\n            # must not be encoded as a chunk.\n            self._writeChunk(data)\n",
